@@ -141,6 +141,12 @@ class StateMatrix:
         return xp.all(xp.isclose(self.coords[..., :3], 0), axis=-1)
 
     @property
+    def _iszero(self):
+        """mask of the states whose wavenumber is zero"""
+        xp = common.get_array_module()
+        return xp.all(xp.isclose(self.coords[..., :3], 0), axis=-1)
+
+    @property
     def F(self):
         """transversal states"""
         return self.states[..., 0]
@@ -148,6 +154,9 @@ class StateMatrix:
     @property
     def F0(self):
         if self.kdim < 4:
+            if self.coords is not None and self.coords.ndim > 2:
+                # batched shifts: the zero wavenumber of one batch entry may be stored in several states
+                return (self.states[..., 0] * self._iszero).sum(axis=-1)
             return self.states[..., self.nstate, 0]
         # select states with k==0
         return self.states[..., 0] * self.i0
@@ -160,6 +169,8 @@ class StateMatrix:
     @property
     def Z0(self):
         if self.kdim < 4:
+            if self.coords is not None and self.coords.ndim > 2:
+                return (self.states[..., 2] * self._iszero).sum(axis=-1)
             return self.states[..., self.nstate, 2]
         # select states with k==0
         return self.states[..., 2] * self.i0
